@@ -123,8 +123,12 @@ Definition sel_mask (start stop step c : Z) : bool :=
   if 0 <? step then (start <=? c) && (c <? stop) && ((c - start) mod step =? 0)
   else (stop <? c) && (c <=? start) && ((start - c) mod (- step) =? 0).
 
-Definition m_getitem (d : dty) (start stop step : Z) (c : list Z) : res tarr :=
-  s_getitem_map (mkT d (filter (sel_mask start stop step) c)) start step.
+(* one sliced axis of extent n, full slices on the other axes.  When the sliced entry is itself the full
+   slice (0, n, 1) every entry is, and getitem returns the operand unchanged (identity shortcut):
+   coordinates AND dtype stay as they are; otherwise the masked coordinates go through the map *)
+Definition m_getitem (d : dty) (n start stop step : Z) (c : list Z) : res tarr :=
+  if s_getitem_identity n start stop step then Ok (mkT d c)
+  else s_getitem_map (mkT d (filter (sel_mask start stop step) c)) start step.
 
 (* ---------------------------------------------------------------- COO.reshape
    lin: np.ravel_multi_index of the old coordinates (intp); rows are returned first axis first *)
